@@ -62,6 +62,7 @@ def run(ctx):
     # the search may live in a helper classmethod called with the token (`cls._first_member_having(xml_value)`)
     import re as _re
 
+    helper_search = []
     for c_ in ast.walk(fx.node):
         if isinstance(c_, ast.Call) and isinstance(c_.func, ast.Attribute) and dotted(c_.func.value) in ("cls", "self") and len(c_.args) == 1 \
                 and dotted(c_.args[0]) == fparam:
@@ -71,6 +72,7 @@ def run(ctx):
                 for m_ in first_matches(prog, g_):
                     if m_["terminal"] == "cls" and m_["elt"] == "_" and gp_:
                         fm.append(dict(m_, conds=[_re.sub(r"\b%s\b" % _re.escape(gp_[0]), fparam, x) for x in m_["conds"]]))
+                        helper_search.append((g_, gp_[0], c_))
     eq = {"_.xml_value == %s" % fparam, "%s == _.xml_value" % fparam}
     raises_fx = [n for n in ast.walk(fx.node) if isinstance(n, ast.Raise)]
     rows = P_.outcomes(_desugar(fx.node).body)
@@ -78,6 +80,17 @@ def run(ctx):
     ret_rows = P_.return_rows_deep(_desugar(fx.node).body)
     empty_rows = ret_rows
     nonempty_ok = bool(ret_rows) and all(P_.implied(fs_, lambda a_: a_[0] == "truthy" and a_[1] == fparam and a_[2] is True) for fs_, _n in ret_rows)
+    if not nonempty_ok and helper_search:
+        # the search helper answers None for the empty token, and from_xml hands out only what is not None
+        g_, gp0, call_ = helper_search[0]
+        hrows = P_.return_rows_deep(_desugar(g_.node).body)
+        helper_ok = bool(hrows) and all(
+            (isinstance(n_.value, ast.Constant) and n_.value.value is None) or n_.value is None
+            or P_.implied(fs_, lambda a_: a_[0] == "truthy" and a_[1] == gp0 and a_[2] is True) for fs_, n_ in hrows)
+        fval_ = P_.value_aliases(_desugar(fx.node))
+        holders = {k_ for k_, v_ in fval_.items() if v_ is call_ or ast.dump(v_) == ast.dump(call_)}
+        caller_ok = bool(ret_rows) and all(P_.implied(fs_, lambda a_: a_[0] == "none" and a_[1] in holders and a_[2] is False) for fs_, _n in ret_rows)
+        nonempty_ok = helper_ok and caller_ok
     if not fm:
         ctx.error("BaseXmlEnum.from_xml", "the member search (first member of cls with ...) is not recognised")
     elif any(set(m_["conds"]) <= eq and m_["conds"] for m_ in fm) and raises_fx and all(_exc_name(r) == "ValueError" for r in raises_fx) \
@@ -384,6 +397,17 @@ def _autoshapes(ctx, prog, S, M):
     rows = {}
     dup_keys = []
     for k, v in zip(tbl_node.keys, tbl_node.values):
+        if k is None:
+            # `**other_table`: the rows of a table built elsewhere (folded)
+            sub = prog.const(v, spec)
+            if not isinstance(sub, dict) or not all(isinstance(a, EnumMember) and isinstance(b, dict) for a, b in sub.items()):
+                ctx.error("%s:%d" % (spec.relpath, v.lineno), "autoshape_types rows spliced in by `**%s` do not fold" % ast.unparse(v)[:40])
+                continue
+            for a, b in sub.items():
+                if a.name in rows:
+                    dup_keys.append(a.name)
+                rows[a.name] = (a, b, v.lineno)
+            continue
         kv = prog.const(k, spec)
         vv = prog.const(v, spec)
         if not isinstance(kv, EnumMember) or not isinstance(vv, dict):
